@@ -1,8 +1,11 @@
 #!/bin/bash
-# Offline setup: pre-build the checker (and warm the Go build cache) from files on disk only.
+# Offline setup: pre-build the checker, the schedule-exploration harness (overlay build) and
+# the -race free-running harness, warming the Go build cache, from files on disk only.
 set -eu
 cd "$(dirname "$0")"
 export GOFLAGS=-mod=mod GOPROXY=off GOSUMDB=off GOTOOLCHAIN=local CGO_ENABLED=0
-mkdir -p bin evidence replays
+mkdir -p bin evidence replays build
 go build -o bin/vcheck ./cmd/vcheck
+./bin/vcheck prebuild x || true
+CGO_ENABLED=1 go build -race -o bin/freeharness-race ./cmd/freeharness || echo "note: -race build not available"
 echo "setup ok"
